@@ -59,6 +59,14 @@ func (mgr *TopicManager) subscribe(topics []string, qoss []byte, clientID string
 	mgr.Lock()
 	defer mgr.Unlock()
 
+	// check all topics first, so that a packet with an invalid topic is
+	// rejected as a whole and leaves nothing behind.
+	for _, t := range topics {
+		if _, err := mgr.getLevels(t); err != nil {
+			return err
+		}
+	}
+
 	for i, t := range topics {
 		if err := mgr.insert(t, qoss[i], clientID); err != nil {
 			return err
